@@ -1,5 +1,5 @@
 import PdshVerif.Dsh.Timed
-import PdshVerif.Dsh.FanStep
+import PdshVerif.Dsh.FanGStep
 
 /-! # Timed LTS: what a step does (facts), projection onto the Fan LTS, locality of host records -/
 namespace PdshVerif.Dsh.Timed
@@ -7,8 +7,8 @@ open PdshVerif.Dsh
 
 /-! ## step facts -/
 
-theorem dstep_fan_facts {s s' : St} {l : Fan.Label} (h : dstep s (.fan l) = some s') :
-    Fan.step s.fan l = some s'.fan ∧ fanGuard s l = true ∧
+theorem dstep_fan_facts {s s' : St} {l : FanG.Label} (h : dstep s (.fan l) = some s') :
+    FanG.step s.fan l = some s'.fan ∧ fanGuard s l = true ∧
     s' = { s with fan := s'.fan,
                   hs := match fanLocal l with
                         | some (i, lo) => updHost s i lo
@@ -82,13 +82,13 @@ theorem script_congr {s s' : St} (h : s'.scripts = s.scripts) (i : Nat) : s'.scr
 
 /-! ## projection onto the Fan LTS -/
 
-def projLabel : Label → Option Fan.Label
+def projLabel : Label → Option FanG.Label
   | .fan l => some l
   | _ => none
 
 theorem step_proj {s s' : St} {l : Label} (h : step s l = some s') :
     match projLabel l with
-    | some fl => Fan.step s.fan fl = some s'.fan
+    | some fl => FanG.step s.fan fl = some s'.fan
     | none => s'.fan = s.fan := by
   cases l with
   | fan fl => exact (dstep_fan_facts (by simpa [step] using h)).1
@@ -99,9 +99,9 @@ theorem step_proj {s s' : St} {l : Label} (h : step s l = some s') :
 /-- every timed execution, with the clock, the watchdog and the reads forgotten, is an execution of the
     Fan LTS: the C03 / C04 theorems hold of the timed system as they stand -/
 theorem exec_proj {s0 s : St} {ls : List Label} (he : Exec s0 ls s) :
-    Fan.Exec s0.fan (ls.filterMap projLabel) s.fan := by
+    FanG.Exec s0.fan (ls.filterMap projLabel) s.fan := by
   induction he with
-  | nil => exact Fan.Exec.nil
+  | nil => exact FanG.Exec.nil
   | snoc he' hs ih =>
     rename_i ls0 s1 l0 s2
     have hp := step_proj hs
@@ -113,9 +113,9 @@ theorem exec_proj {s0 s : St} {ls : List Label} (he : Exec s0 ls s) :
     | some fl =>
       rw [hl] at hp
       have : List.filterMap projLabel [l0] = [fl] := by simp [List.filterMap, hl]
-      rw [this]; exact Fan.Exec.snoc ih hp
+      rw [this]; exact FanG.Exec.snoc ih hp
 
-theorem reach_proj {v f c scripts s} (h : Reach v f c scripts s) : Fan.Reach v f scripts.length s.fan := by
+theorem reach_proj {v f c scripts s} (h : Reach v f c scripts s) : FanG.Reach v f scripts.length s.fan := by
   obtain ⟨ls, he⟩ := h
   exact ⟨_, by simpa [init] using exec_proj he⟩
 
